@@ -13,7 +13,7 @@ UNIT = dict(
             dict(rule='R7', lit='fn read_big_endian_integer(reader: &mut Cursor<Vec<u8>>, buffer: &mut [u8]) -> Result<u32> {', to='fn read_big_endian_integer(reader: &mut Cursor, buffer: &mut [u8]) -> (r: core::result::Result<u32, ErrTag>)\n{', count=1, note='std::io::Cursor<Vec<u8>> model; result named'),
             dict(rule='R10', lit='for &mut byte in buffer {', to='for byte in buffer_by_index {', count=1, note='iteration over a mutable slice by value: index loop'),
         ], subst=[
-            dict(rule='R10', pat=r'value = (.*)u32::from\(byte\);', to=r'let byte = buffer[__k1 - 1];\n        value = \1u32_from(byte);', count=1, note='index loop: element k; u32::from(u8) shim'),
+            dict(rule='R10', pat=r'value = ([^;\n]*)u32::from\(byte\);', to=r'let byte = buffer[__k1 - 1];\n        value = \1u32_from(byte);', count=1, note='index loop: element k; u32::from(u8) shim'),
             dict(rule='R5', lit='let mut value = 0;', to='let mut value: u32 = 0;', count=1, note='integer type made explicit (inferred from the return type)'),
         ])),
         dict(file=R, impl="Reader<'_>", emit_impl='impl Reader', key_impl='Reader', name='search_substring', props=['C02', 'C04', 'C07'], rules=dict(no_sink=True, subst=[
